@@ -26,7 +26,7 @@ RULE = ('seeded plans: identity-encoded RDM stack (optionally a bootstrap sample
 ASSUMPTIONS = ['numpy global RNG is the only entropy source of the fold generators and fitters (seam)',
                'reference partition model in checks/c05.py and sim/twins/rdms_ref.py is correct',
                'compare()/fitters are trusted primitives here (their numerical failure is not judged)']
-BUDGET = {'quick': {'runs': 1500, 'cap_s': 60, 'wall_s': 100, 'chunk': 25},
+BUDGET = {'quick': {'runs': 4000, 'cap_s': 60, 'wall_s': 100, 'chunk': 25},
           'thorough': {'runs': 60000, 'cap_s': 90, 'wall_s': 1200, 'chunk': 100}}
 
 GENS = ['sets_leave_one_out_pattern', 'sets_leave_one_out_rdm', 'sets_k_fold', 'sets_k_fold_rdm',
